@@ -44,7 +44,9 @@ type MemoryLoader struct {
 func (l *MemoryLoader) Load(name string) (Template, error) {
 	v, ok := l.Templates[name]
 	if !ok {
-		return nil, os.ErrNotExist
+		// Like a missing file: the error says which template was asked for,
+		// and os.IsNotExist reports true for it.
+		return nil, &os.PathError{Op: "load", Path: name, Err: os.ErrNotExist}
 	}
 	return &stringTemplate{name, v}, nil
 }
